@@ -129,11 +129,12 @@ Definition accepts (f : flags) (st en : option Z) (k : kind) (p : word) : bool :
   | _ => false
   end.
 
-(* times in microseconds: at and 1 ms around the two file times of the universe *)
+(* times in microseconds: at and 1 ms around the two file times of the universe, and 1 microsecond around the second
+   (a bound taken from a clock has a sub-millisecond part; file times have none) *)
 Definition T0 : Z := 1500000000000000.
 Definition u_times : list (option Z) :=
-  [None; Some (T0 - 1000); Some T0; Some (T0 + 1000); Some (T0 + 122000); Some (T0 + 123000);
-   Some (T0 + 124000)].
+  [None; Some (T0 - 1000); Some T0; Some (T0 + 1000); Some (T0 + 122000); Some (T0 + 122999); Some (T0 + 123000);
+   Some (T0 + 123001); Some (T0 + 124000)].
 Definition u_windows : list (option Z * option Z) :=
   flat_map (fun a => map (fun b => (a, b)) u_times) u_times.
 
